@@ -268,6 +268,8 @@ def run(ctx):
             twice = [x for x in bbs for y in bbs if (x != y and y in han.reach_after(x, ('normal',))) or in_cycle(han, x)]
             ok = len(bbs) >= 1 and not any(e in esc for e in rets) and not twice
             ctx.ob('R09.2', 'take: %s exactly once on every path' % what, ok, ctx.where(h), '%d site(s)' % len(bbs), construct='take:' + what)
+    from .rules_C07 import surplus_guard
+    surplus_guard(ctx, r, 'R09.2', hs)
     # take returns the inner value it detached
     rets = [s for blk in tk.blocks for s in blk.stmts if s.kind == 'assign' and s.place.local == 0 and s.place.is_local()]
     src = set()
